@@ -243,14 +243,10 @@ func checkC15(c *checkCtx) {
 					if n.Pos != core || n.Exit == nil {
 						continue
 					}
-					// the retry/hedge call was in progress, with function work still ahead, when Cancel returned
-					// (a new invocation started after Cancel returned; or, without hedged attempts, an invocation spans the Cancel call)
+					// "Cancel took effect before completion": without hedged attempts, a function invocation
+					// started after Cancel returned or spans the Cancel call; for a hedge policy, no attempt
+					// had produced a result yet when Cancel returned
 					workAhead := false
-					for _, fs := range v.FnStarts {
-						if fs.Seq > v.Cancel1.Seq && fs.Seq < n.Exit.Seq {
-							workAhead = true
-						}
-					}
 					hedged := false
 					for pos := range v.Stack {
 						if v.policyAt(sc, pos).Kind == KHedge {
@@ -259,10 +255,25 @@ func checkC15(c *checkCtx) {
 					}
 					if !hedged {
 						for i, fs := range v.FnStarts {
+							if fs.Seq > v.Cancel1.Seq && fs.Seq < n.Exit.Seq {
+								workAhead = true
+							}
 							if i < len(v.FnEnds) && fs.Seq < v.Cancel0.Seq && v.FnEnds[i].Seq > v.Cancel1.Seq && v.FnEnds[i].Seq < n.Exit.Seq {
 								workAhead = true
 							}
 						}
+					} else if v.policyAt(sc, core).Kind == KHedge {
+						started, produced := false, false
+						for _, ch := range n.Children {
+							if ch.Enter.Seq < v.Cancel0.Seq {
+								started = true
+							}
+							if ch.Exit != nil && ch.Exit.Seq < v.Cancel1.Seq {
+								produced = true
+							}
+						}
+						// nested hedges or retries inside make "produced" unclear: judge the plain hedge only
+						workAhead = started && !produced && len(v.Stack) == 1
 					}
 					if n.Enter.Seq < v.Cancel0.Seq && v.Cancel1.Seq < n.Exit.Seq && workAhead && core == 0 {
 						c.cov("c15.cancel_before_completion")
